@@ -12,7 +12,7 @@ MODULES = {
     "C11": "checks.fs_checks", "C12": "checks.fs_checks",
     "C13": "checks.imm_checks", "C14": "checks.imm_checks",
     "C15": "checks.prog_checks", "C20": "checks.prog_checks",
-    "C19": "checks.tb_checks", "C18": "checks.time_checks",
+    "C19": "checks.tb_checks", "C18": "checks.time_checks", "C16": "checks.mem_checks",
 }
 
 
